@@ -8,6 +8,8 @@ import Rsp.Hash.Md5
 import Rsp.Hash.Sha256
 import Rsp.Model.Log
 import Rsp.Spec.Log
+import Rsp.Model.Radmsg
+import Rsp.Spec.Radmsg
 namespace Drive
 open Rsp
 
@@ -112,6 +114,39 @@ def parseFticks (args : List String) : Option Log.FticksIn :=
            mode := Log.MacMode.ofCode mode, key := key }
   | _ => none
 
+def realHashes : Radmsg.Hashes := { md5 := Hash.md5, hmacMd5 := Hash.hmacMd5 }
+
+def showAttr (a : Radmsg.Tlv) : String := s!"{a.t.toNat}:{toHex a.v}"
+
+def showMsg (m : Radmsg.Msg) : String :=
+  " ".intercalate ([s!"msg {m.code.toNat} {m.id.toNat} {toHex m.auth} {if m.macInvalid then 1 else 0}"] ++ m.attrs.map showAttr)
+
+/-- "<t>:<hex>" or "<t>:N<len>" (NULL value pointer of that length = zeros) -/
+def parseAttr (tok : String) : Option Radmsg.Tlv :=
+  match tok.splitOn ":" with
+  | [t, v] => do
+    let t ← t.toNat?
+    if t > 255 then none
+    let v ← if v.startsWith "N" then (v.drop 1).toString.toNat?.map Radmsg.zeros else ofHex v
+    pure { t := UInt8.ofNat t, v := v }
+  | _ => none
+
+def parseMsgToks (ts : List String) : Option Radmsg.Msg :=
+  match ts with
+  | "msg" :: code :: id :: auth :: mi :: attrs => do
+    let code ← code.toNat?
+    let id ← id.toNat?
+    let auth ← ofHex auth
+    let attrs ← attrs.mapM parseAttr
+    pure { code := UInt8.ofNat code, id := UInt8.ofNat id, auth := auth, attrs := attrs, macInvalid := mi = "1" }
+  | _ => none
+
+def showSer (r : Radmsg.SerRes) : String :=
+  match r with
+  | .fail => "fail"
+  | .fault => "fault:oobWrite"
+  | .ok b a => s!"ok {toHex b} {toHex a}"
+
 def model (op : String) (args : List String) : String :=
   match op, args with
   | "decttl", [h] =>
@@ -162,6 +197,16 @@ def model (op : String) (args : List String) : String :=
     | none => "bad-op"
   | "sha256", [m] => match ofHex m with | some m => toHex (Hash.sha256 m) | none => "bad-op"
   | "hmacsha256", [k, m] => match ofHex k, ofHex m with | some k, some m => toHex (Hash.hmacSha256 k m) | _, _ => "bad-op"
+  | "parse", [b, sec, rq] =>
+    match ofHex b, parseOptTok sec, parseOptTok rq with
+    | some b, some sec, some rq =>
+      (match Radmsg.parse realHashes b sec rq with | some m => showMsg m | none => "none")
+    | _, _, _ => "bad-op"
+  | "serialize", sec :: code :: id :: auth :: attrs =>
+    match parseOptTok sec, code.toNat?, id.toNat?, ofHex auth, attrs.mapM parseAttr with
+    | some sec, some code, some id, some auth, some attrs =>
+      showSer (Radmsg.serialize realHashes { code := UInt8.ofNat code, id := UInt8.ofNat id, auth := auth, attrs := attrs } sec)
+    | _, _, _, _, _ => "bad-op"
   | _, _ => "bad-op"
 
 def spec (op : String) (args impl : List String) : String :=
@@ -227,6 +272,25 @@ def spec (op : String) (args impl : List String) : String :=
     | _, _ => "bad output-shape"
   | "sha256", [_], [_] => "ok"
   | "hmacsha256", [_, _], [_] => "ok"
+  | "parse", [b, sec, rq], impl =>
+    match ofHex b, parseOptTok sec, parseOptTok rq with
+    | some b, some sec, some rq =>
+      if impl = ["none"] then (if Spec.parseRejectOk realHashes b sec rq then "ok" else "bad rejected-wellformed-authentic-packet")
+      else match parseMsgToks impl with
+        | some m => Spec.parseAcceptVerdict realHashes b sec rq m
+        | none => "bad output-shape"
+    | _, _, _ => "bad-op"
+  | "serialize", sec :: code :: id :: auth :: attrs, impl =>
+    match parseOptTok sec, code.toNat?, id.toNat?, ofHex auth, attrs.mapM parseAttr with
+    | some sec, some code, some id, some auth, some attrs =>
+      let m : Radmsg.Msg := { code := UInt8.ofNat code, id := UInt8.ofNat id, auth := auth, attrs := attrs }
+      match impl with
+      | ["fail"] => if Spec.serializeFailOk m then "ok" else "bad serialize-failed-on-small-message"
+      | ["ok", b, _] => (match ofHex b with
+          | some b => Spec.serializeVerdict realHashes m sec b
+          | none => "bad output-shape")
+      | _ => "bad output-shape"
+    | _, _, _, _, _ => "bad-op"
   | "md5", [_], [_] => "ok"
   | "hmacmd5", [_, _], [_] => "ok"
   | _, _, _ => "bad-op"
